@@ -1,13 +1,28 @@
 #!/usr/bin/env python3
 """Prints a markdown table of /verif/seeded/*/meta.json (which checks catch which seeded change)."""
-import json,glob,os
+import json,glob,re
+def key(p):
+    m=re.search(r'C(\d+)-(\d+)',p); return (int(m.group(1)),int(m.group(2)))
 rows=[]
-for f in sorted(glob.glob('/verif/seeded/*/meta.json')):
+for f in sorted(glob.glob('/verif/seeded/*/meta.json'),key=key):
     m=json.load(open(f))
-    caught=[c['check'] for c in m.get('checks_run',[]) if c.get('exit')==1]
-    missed=[c['check']+('(inconclusive)' if c.get('exit')==3 else '') for c in m.get('checks_run',[]) if c.get('exit')!=1]
-    sigs='; '.join(sorted({s for c in m.get('checks_run',[]) if c.get('exit')==1 for s in c.get('signatures','').split()}))[:260]
-    rows.append((m['id'],(m.get('summary') or '')[:170].replace('|','/').replace('\n',' '),', '.join(caught) or '—',', '.join(missed) or '—',sigs))
-print('| seeded change | what it does | caught by | run but silent | signatures |')
+    runs=m.get('checks_run',[])
+    caught=[c['check'] for c in runs if c.get('exit')==1]
+    silent=[c['check']+(' (inconclusive)' if c.get('exit')==3 else '') for c in runs if c.get('exit')!=1]
+    own=m['property']
+    sig=''
+    for c in runs:
+        if c.get('exit')==1 and c['check']==own and c.get('signatures'):
+            sig=c['signatures'].split()[0]
+    if not sig:
+        for c in runs:
+            if c.get('exit')==1 and c.get('signatures'):
+                sig=c['signatures'].split()[0]+' ('+c['check']+')'; break
+    what=(m.get('summary') or '').replace('|','/').replace('\n',' ')
+    what=what[:150]+('…' if len(what)>150 else '')
+    rows.append((m['id'],what,', '.join(caught) or '—',', '.join(silent) or '—',sig[:90]))
+print('| seeded change | what it does | caught by | run but silent | first signature |')
 print('|---|---|---|---|---|')
 for r in rows: print('| '+' | '.join(r)+' |')
+n=len(rows); own=sum(1 for r in rows if r[0].split('-')[0] in r[2].split(', ')); anyc=sum(1 for r in rows if r[2]!='—')
+print(f'\n{n} seeded changes; {own} caught by the check of their own property, {anyc} caught by some check.')
